@@ -3,7 +3,7 @@ import itertools
 
 import numpy as np
 
-from symtt.core import scenario, HarnessError, SkipTV
+from symtt.core import unchanged_inputs, scenario, HarnessError, SkipTV
 from symtt import dense as D
 from .common import mk_cores, meta_ok, free_policy
 from .C15 import _funcs, _dense, _scalar_funcs
@@ -59,6 +59,7 @@ def _mandy_grid(tier):
 
 
 @scenario('C16', 'mandy', _mandy_grid)
+@unchanged_inputs('x', 'y')
 def mandy(ctx, variant, d, m, fam, cplx_y=False):
     """mandy_cm / mandy_fm == U diag(1/s) Vh y^T with the global SVD factors of the transformed data tensor"""
     reg, tdt = ctx.R.regression, ctx.R.transform
@@ -112,6 +113,7 @@ def mandy(ctx, variant, d, m, fam, cplx_y=False):
 # ------------------------------------------------------------------------------ kernel
 @scenario('C16', 'mandy_kb', lambda tier: [{'d': d, 'm': m, 'ny': ny, 'mix': mix} for d in (1, 2) for m in (1, 2, 3) for ny in (1, 2)
                                             for mix in ([['id', 'mono2']], [['const', 'id'], ['sin', 'id']]) if not (m == 3 and ny == 2 and tier == 'quick')])
+@unchanged_inputs('x', 'y')
 def mandy_kb(ctx, d, m, ny, mix):
     """kernel-based MANDy: solver input == (Gram matrix, y^T), on both branches of the conditioning test; z reproduces y on the training data by the solve contract"""
     reg, tdt = ctx.R.regression, ctx.R.transform
@@ -173,6 +175,7 @@ def _arr_grid(tier):
 
 
 @scenario('C16', 'arr', _arr_grid)
+@unchanged_inputs('x', 'y')
 def arr(ctx, mix, ranks, d, m, ny, repeats, listguess=False, int_x=False):
     """ARR: micro_matrix^T vec(core_i) == predictions of the current coefficient train on every snapshot; rhs; schedule; ranks; guess unchanged"""
     reg, tdt = ctx.R.regression, ctx.R.transform
